@@ -10,12 +10,18 @@ Local Open Scope N_scope.
 Lemma no_panic_neq {A} (o : outcome A) : no_panic o -> forall p, o <> Panic p.
 Proof. destruct o; cbn; intros H p' E; try discriminate. exact H. Qed.
 
-Theorem read_ctpk_supported m f texs : conforms_ctpk f texs -> Forall supported3ds texs ->
+Theorem read_ctpk_supported m f texs : conforms_ctpk f texs -> Forall supported3ds_f32 texs ->
   read_ctpk m f = Ok (map decoded texs).
-Proof. intros Hc Hs. rewrite (read_ctpk_correct m f texs Hc). apply decode_all_supported, Hs. Qed.
-Theorem read_bch_supported m f texs : conforms_bch f texs -> Forall supported3ds texs ->
+Proof.
+  intros Hc Hs. destruct (supported_f32_split _ Hs) as (Hs1 & Hx).
+  rewrite (read_ctpk_correct m f texs Hc Hx). apply decode_all_supported, Hs1.
+Qed.
+Theorem read_bch_supported m f texs : conforms_bch f texs -> Forall supported3ds_f32 texs ->
   read_bch m f = Ok (map decoded texs).
-Proof. intros Hc Hs. rewrite (read_bch_correct m f texs Hc). apply decode_all_supported, Hs. Qed.
+Proof.
+  intros Hc Hs. destruct (supported_f32_split _ Hs) as (Hs1 & Hx).
+  rewrite (read_bch_correct m f texs Hc Hx). apply decode_all_supported, Hs1.
+Qed.
 Theorem read_cgfx_supported m f texs : conforms_cgfx f texs -> Forall supported3ds texs ->
   read_cgfx m f = Ok (map decoded texs).
 Proof. intros Hc Hs. rewrite (read_cgfx_correct m f texs Hc). apply decode_all_supported, Hs. Qed.
@@ -23,20 +29,22 @@ Theorem read_tpl_supported m f texs : conforms_tpl f texs -> Forall supportedtpl
   read_tpl m f = Ok (map tpl_decoded texs).
 Proof. intros Hc Hs. rewrite (read_tpl_correct m f texs Hc). apply decode_all_tpl_supported, Hs. Qed.
 
-Theorem ctpk_prefix_supported m f texs k : conforms_ctpk f texs -> Forall supported3ds texs -> k < lenN f ->
+Theorem ctpk_prefix_supported m f texs k : conforms_ctpk f texs -> Forall supported3ds_f32 texs -> k < lenN f ->
   (forall p, read_ctpk m (firstn (N.to_nat k) f) <> Panic p) /\
   (forall i t off, nth_error texs i = Some t -> ctpk_payload_at f (N.of_nat i) off -> cuts k off (t_data t) ->
      exists e, read_ctpk m (firstn (N.to_nat k) f) = Err e).
 Proof.
-  intros Hc Hs Hk. destruct (ctpk_prefix m f texs k Hc (supported_no_panic m texs Hs) Hk) as (Hn & He).
+  intros Hc Hs Hk. destruct (supported_f32_split _ Hs) as (Hs1 & Hx).
+  destruct (ctpk_prefix m f texs k Hc Hx (supported_no_panic m texs Hs1) Hk) as (Hn & He).
   split; [apply no_panic_neq, Hn|]. intros i t off Hi Hp Hcut. apply is_err_exists. eapply He; eauto.
 Qed.
-Theorem bch_prefix_supported m f texs k : conforms_bch f texs -> Forall supported3ds texs -> k < lenN f ->
+Theorem bch_prefix_supported m f texs k : conforms_bch f texs -> Forall supported3ds_f32 texs -> k < lenN f ->
   (forall p, read_bch m (firstn (N.to_nat k) f) <> Panic p) /\
   (forall i t off, nth_error texs i = Some t -> bch_payload_at f (N.of_nat i) off -> cuts k off (t_data t) ->
      exists e, read_bch m (firstn (N.to_nat k) f) = Err e).
 Proof.
-  intros Hc Hs Hk. destruct (bch_prefix m f texs k Hc (supported_no_panic m texs Hs) Hk) as (Hn & He).
+  intros Hc Hs Hk. destruct (supported_f32_split _ Hs) as (Hs1 & Hx).
+  destruct (bch_prefix m f texs k Hc Hx (supported_no_panic m texs Hs1) Hk) as (Hn & He).
   split; [apply no_panic_neq, Hn|]. intros i t off Hi Hp Hcut. apply is_err_exists. eapply He; eauto.
 Qed.
 Theorem cgfx_prefix_supported m f texs k : conforms_cgfx f texs -> Forall supported3ds texs -> k < lenN f ->
